@@ -331,7 +331,27 @@ pub fn execute_stall(p: &Program, prefix: &[usize], horizon: usize, on_decision:
             let out = apply_op(sut.store(), &p.tables, &op);
             ex.finals.push((op, out));
         }
-        ex.final_dump = Some(sut.store().verif_dump());
+        let dump = sut.store().verif_dump();
+        // C12 at quiescence (nothing concurrent any more): an automatically timestamped write to every
+        // observed key must be accepted, whatever the schedule did to the key's clock. Taken after the
+        // observations and the dump, so the linearization sees the state the threads left.
+        if !p.name.starts_with("wb:") {
+            for &k in &p.observe {
+                let key = &p.tables.keys[k as usize];
+                if dump.records.iter().any(|r| &r.key == key && r.timestamp == u64::MAX) || p.tables.values.is_empty() {
+                    continue;
+                }
+                let probe = Op::Insert { k, v: 0, ts: 0, ttl: 0, bytes: false };
+                if apply_op(sut.store(), &p.tables, &probe) == Out::err("OlderTimestamp") {
+                    ex.monitor.push(format!(
+                        "C12: after all threads had finished, an automatic write to key {} (timestamp {} at that point) was refused as older; C07: a refusal without any concurrent accepted modification",
+                        crate::util::show(key),
+                        dump.records.iter().find(|r| &r.key == key).map_or(0, |r| r.timestamp)
+                    ));
+                }
+            }
+        }
+        ex.final_dump = Some(dump);
     }
     ex.now = sut.now();
     if want_log {
